@@ -14,7 +14,12 @@ import (
 func init() { register("C04", runC04) }
 
 func runC04(c *mon.Ctx) {
-	c.Cases(func(i int, r *mon.Rand) { c04Case(c, r) })
+	c.Cases(func(i int, r *mon.Rand) {
+		c04Case(c, r)
+		if i%4 == 0 {
+			c04AliasLength(c, r.Fork(41))
+		}
+	})
 }
 
 type c04Desc struct {
@@ -334,6 +339,63 @@ func c04Case(c *mon.Ctx, r *mon.Rand) {
 			}
 		}
 	}
+}
+
+// c04AliasLength: under a sanitizer that changes the byte length of a tag
+// value, the scope is registered under its raw and its sanitized spelling. A
+// later derivation whose raw spelling is "sanitized value + the last bytes of
+// the earlier raw value" (what a registry alias built in a reused, not
+// re-sliced buffer would read) has an identity of its own.
+func c04AliasLength(c *mon.Ctx, r *mon.Rand) {
+	so := tally.SanitizeOptions{
+		NameCharacters:       tally.ValidCharacters{Ranges: tally.AlphanumericRange, Characters: tally.UnderscoreDashDotCharacters},
+		KeyCharacters:        tally.ValidCharacters{Ranges: tally.AlphanumericRange, Characters: tally.UnderscoreCharacters},
+		ValueCharacters:      tally.ValidCharacters{Ranges: tally.AlphanumericRange, Characters: tally.UnderscoreCharacters},
+		ReplacementCharacter: '_',
+	}
+	multi := []string{"é", "ü", "€", "\xf0\x9f\x98\x80", "日本"}
+	v := ""
+	for i, n := 0, r.Range(1, 3); i < n; i++ {
+		v += multi[r.Intn(len(multi))]
+		if r.Bool() {
+			v += r.Ident(2)
+		}
+	}
+	v += r.Ident(4) + "wxyz0123" // an alphanumeric tail longer than any length difference considered
+	sv := mon.RefSanitize(mon.RefValid{Ranges: [][2]rune{{'a', 'z'}, {'A', 'Z'}, {'0', '9'}}, Chars: []rune{'_'}}, '_', v)
+	d := len(v) - len(sv)
+	if d <= 0 || d > 8 {
+		return
+	}
+	late := sv + v[len(v)-d:]
+	cached := r.Bool()
+	opts := tally.ScopeOptions{SanitizeOptions: &so, OmitCardinalityMetrics: true, Prefix: r.Pick("", "svc")}
+	var rec *mon.Recorder
+	if cached {
+		cr := mon.NewCachedRec(false)
+		rec, opts.CachedReporter = cr.Recorder, cr
+	} else {
+		pr := mon.NewPlainRec(false)
+		rec, opts.Reporter = pr.Recorder, pr
+	}
+	root, _ := vNewRoot(opts, 0, 1)
+	key := r.Pick("a", "zz", "k_1")
+	c.Eval(1)
+	desc := map[string]interface{}{"first_raw_value": v, "first_sanitized": sv, "second_raw_value": late, "key": key, "cached": cached, "prefix": opts.Prefix}
+	c.Guard("panic/alias", func() interface{} { return desc }, func() {
+		root.Tagged(map[string]string{key: v}).Counter("m").Inc(1)
+		root.Tagged(map[string]string{key: late}).Counter("m").Inc(2)
+		tally.VerifReportPass(root)
+	})
+	_, agg, _ := rec.Snapshot()
+	name := mon.RefName(opts.Prefix, ".", "m")
+	if got := agg[mon.IdentKey(name, map[string]string{key: sv})].Sum; got != 1 {
+		c.Violation("wrong-name-or-tags/alias", map[string]interface{}{"why": fmt.Sprintf("counter of the first derivation: %d delivered under tags {%s:%s}, 1 recorded", got, key, sv), "case": desc})
+	}
+	if got := agg[mon.IdentKey(name, map[string]string{key: late})].Sum; got != 2 {
+		c.Violation("wrong-name-or-tags/alias", map[string]interface{}{"why": fmt.Sprintf("counter of the second derivation: %d delivered under tags {%s:%s}, 2 recorded", got, key, late), "case": desc})
+	}
+	c.Event("length-changing-sanitizations", 1)
 }
 
 func expectList(m map[string]nameTags) []string {
